@@ -143,6 +143,7 @@ type SkelOpt struct {
 	Calls   map[string]bool // selector / function names reported as Call
 	Assigns map[string]bool // assigned field names (last selector component) reported as Assign
 	Conds   bool            // print if-conditions as source text (otherwise "")
+	Branches bool           // report continue / break as Cont / Brk
 }
 
 func isLockCall(name string) bool {
@@ -414,6 +415,16 @@ func (f *File) stmt(s ast.Stmt, o SkelOpt) []string {
 			return nil
 		}
 		return []string{"SwitchE " + CoqList(cases)}
+	case *ast.BranchStmt:
+		if o.Branches {
+			switch x.Tok {
+			case token.CONTINUE:
+				return []string{"Cont"}
+			case token.BREAK:
+				return []string{"Brk"}
+			}
+		}
+		return nil
 	case *ast.LabeledStmt:
 		return f.stmt(x.Stmt, o)
 	case *ast.SendStmt:
